@@ -21,7 +21,7 @@ RULE = (
   "integrator changed the reference result whenever damping>0; distinct = hash of the scenario spec"
 )
 BOUNDS = {
-  "quick": "N<=3 bodies (k=1 for N=3 with joint kinds {hinge, ball, free, hinge+slide}; k=3 for N<=2 with {weld} as well), "
+  "quick": "N<=3 bodies (k=1 for N=3 with joint kinds {hinge, ball, free}; k=3 for N<=2 with {weld, hinge+slide} as well), "
   "5 integrator configurations, 2 states",
   "thorough": "N<=3 bodies, all 5 joint kinds, k=5 for all, 5 integrator configurations, 2 states, plus joint-limit variant (solver class)",
 }
@@ -52,7 +52,7 @@ def scenarios(tier, seed):
   for parents in space.trees_upto(3):
     n = len(parents)
     k = 5 if tier == "thorough" else (1 if n == 3 else 3)
-    kinds = KINDS if (tier == "thorough" or n < 3) else KINDS[1:]  # quick: welded bodies only in trees of <=2 bodies
+    kinds = KINDS if (tier == "thorough" or n < 3) else KINDS[1:4]  # quick: welded and two-joint bodies only in trees of <=2 bodies
     for joints in space.joint_assignments(parents, kinds=kinds):
       for damp in (0, 1):
         for act in ACTS:
